@@ -206,6 +206,8 @@ def _structure_unit(kind, npieces, rev):
         uses=[PARSE_KEY_CONTRACT],
         timeout_s=600,
         replay=('props.c17:replay_multikey', {'kind': kind}),
+        # three components are 4680 paths (about 50 CPU-minutes) per unit: thorough tier; one and two components every run
+        thorough_only=(npieces >= 3),
     )
 
 
